@@ -1,6 +1,9 @@
 """C10 - mode-summed tidal heating and torques: consistency, limits, sign, grouping invariance.
 
-Generated (through `quick_tidal_dissipation`, which is a thin wrapper around calculate_terms / collapse_modes)
+Generated (kind `single`: through `quick_tidal_dissipation`; kind `direct`: calculate_terms / collapse_modes called directly,
+assembled the way quick_tidal_dissipation does with scalar or all-array inputs, the mode terms / unique frequencies / tidal
+susceptibility computed ONCE and collapsed three times on the same objects - the case's rheology, a second generated rheology,
+the first again - as a caller looping over rheologies, temperatures or layers, or the object API between orbit updates, does)
   host mass 10^[22,30] kg, target R 10^[5,7.8] m, rho 10^[2.7,4.1], a/R 10^[0.6,3] (n follows from Kepler),
   spin: synchronous (spin_frequency=None), or spin/n in [-3,3] with {+-1, 3/2, 2, 1/2, 0, +-3} over-represented
   (spin/n = 1 passed explicitly is the "synchronous without object identity" path), e = 0 | [0,0.5] | [0,0.12],
@@ -31,6 +34,10 @@ Oracles (all element-wise for arrays)
               coefficients, own closed-form Love number, rheology .py_func); heating, dUdM, dUdw, dUdO must agree to
               1e-10 * sum|mode terms| each (measured worst 2e-15).  A wrong coefficient / lost term moves them
               by >= 1e-3 of the scale.
+  direct      every one of the three collapse_modes calls: grouping (harness sum for that rheology), identity, closed_form; the
+              third call must reproduce the first bit for bit (`repeatable`).
+  inputs_not_mutated  no argument object of calculate_terms, collapse_modes or quick_tidal_dissipation (ndarrays, dicts of
+              arrays / of tuples of arrays, typed dicts) is changed by the call: deep snapshot before, bit-wise comparison after.
   ctl_default the package-default CTL parameters (static_k2, fixed_q, fixed_dt of tides.models.global_approx, from
               TidalPy.defaultc or TidalPy.config; clause discarded if neither layout exists) through quick_tidal_dissipation
               and through a synchronous `simple_tidal` world with use_ctl=True (skipped with a label if the object API
@@ -70,6 +77,7 @@ Sensitivity (tools/mut.py, quick tier --cases 2000; all CAUGHT)
   mode_manipulation.py 'heating_term_new = heating_term_old + heating_term' -> '= heating_term' -> grouping, identity
   dissipation.py '(3. / 2.) * G * host_mass**2' -> '(3. / 2.) * G * host_mass' (first)    -> closed_form, grouping
   fixes/revert-35fe97c.diff, fixes/revert-2e2c7f6.diff                                    -> exception, sign(ctl_default)
+  seeded/C10-3 (collapse_modes divides the caller's susceptibility array by M_host in place) -> inputs_not_mutated, direct
   seeded/C10-1 (synchronous regrouping merges modes of different frequency), C10-2 (dUdO accumulates dUdw) -> grouping, identity
   (DESIGN's `n_sig = abs(n_coeff)` removal only changes how many signatures share a frequency, i.e. is an equivalent
    mutant; no check fires on it.)
